@@ -5,6 +5,7 @@ import (
 	"go/types"
 	"os"
 	"sort"
+	"strings"
 
 	"golang.org/x/tools/go/ssa"
 
@@ -497,4 +498,192 @@ func init() {
 			}
 		}
 	})
+}
+
+// sharedBufferRetained: inside a loop a byte slice is handed to a call that keeps it by reference
+// (tree.Set(key, value): IAVL stores the key slice in the node), although the slice's backing array
+// was allocated once outside the loop and is rewritten in every iteration (passed to another call or
+// stored into in the loop body). Every node then holds the same, last-written key.
+type sharedBuf struct {
+	At  ssa.CallInstruction
+	Buf ssa.Value
+}
+
+func sharedBufferRetained(fn *ssa.Function, retains func(c ssa.CallInstruction) []int) []sharedBuf {
+	var out []sharedBuf
+	if fn.Blocks == nil {
+		return nil
+	}
+	for _, b := range fn.Blocks {
+		hdr := enclosingLoopHeader(b)
+		if hdr == nil {
+			continue
+		}
+		body := loopBlocks(hdr)
+		for _, ins := range b.Instrs {
+			c, ok := ins.(ssa.CallInstruction)
+			if !ok {
+				continue
+			}
+			for _, ai := range retains(c) {
+				args := engine.CallArgs(c)
+				if ai >= len(args) {
+					continue
+				}
+				// the allocation behind the argument
+				v := engine.Unwrap(args[ai])
+				for d := 0; d < 4; d++ {
+					if sl, isSl := v.(*ssa.Slice); isSl {
+						v = engine.Unwrap(sl.X)
+						continue
+					}
+					break
+				}
+				var alloc ssa.Value
+				switch x := v.(type) {
+				case *ssa.MakeSlice:
+					alloc = x
+				case *ssa.Alloc:
+					alloc = x
+				}
+				if alloc == nil {
+					continue
+				}
+				ai2, _ := alloc.(ssa.Instruction)
+				if ai2 == nil || body[ai2.Block()] {
+					continue // allocated in this iteration
+				}
+				// rewritten inside the loop: handed to another call, or stored into
+				rewritten := false
+				// the buffer and every slice of it (wherever the slice expression sits)
+				derived := []ssa.Value{alloc}
+				for k := 0; k < len(derived) && k < 16; k++ {
+					if derived[k].Referrers() == nil {
+						continue
+					}
+					for _, ref := range *derived[k].Referrers() {
+						if sl, isSl := ref.(*ssa.Slice); isSl && sl.X == derived[k] {
+							derived = append(derived, sl)
+						}
+					}
+				}
+				for _, dv := range derived {
+					if dv.Referrers() == nil {
+						continue
+					}
+					for _, ref := range *dv.Referrers() {
+						if !body[ref.Block()] || ref == ins {
+							continue
+						}
+						switch y := ref.(type) {
+						case ssa.CallInstruction:
+							rewritten = true
+						case *ssa.IndexAddr:
+							if y.Referrers() != nil {
+								for _, r2 := range *y.Referrers() {
+									if _, isSt := r2.(*ssa.Store); isSt && body[r2.Block()] {
+										rewritten = true
+									}
+								}
+							}
+						}
+					}
+				}
+				if rewritten {
+					out = append(out, sharedBuf{At: c, Buf: alloc})
+				}
+			}
+		}
+	}
+	return out
+}
+
+// treeSetRetains: argument indexes (receiver = 0) that a tree/db write keeps by reference.
+func treeSetRetains(c ssa.CallInstruction) []int {
+	o := engine.CalleeObj(c.Common())
+	if o == nil || o.Name() != "Set" {
+		return nil
+	}
+	recv := ""
+	if sig, ok := o.Type().(*types.Signature); ok && sig.Recv() != nil {
+		recv = sig.Recv().Type().String()
+	}
+	if strings.Contains(recv, "iavl") || strings.Contains(recv, "MutableTree") || strings.Contains(recv, "core/state.Tree") {
+		return []int{1}
+	}
+	return nil
+}
+
+// drainBoundedByShrinkingLen: `for i := 0; i < len(ch); i++ { x := <-ch … }` — the bound is read
+// again on every iteration while the body shortens the channel and the index grows: the loop stops
+// after about half of the elements. Reported for every loop whose header compares a value with
+// len(c) of a channel c that the loop body receives from.
+func drainBoundedByShrinkingLen(fn *ssa.Function) []ssa.Instruction {
+	var out []ssa.Instruction
+	if fn.Blocks == nil {
+		return nil
+	}
+	for _, h := range fn.Blocks {
+		isHdr := false
+		for _, pr := range h.Preds {
+			if h.Dominates(pr) {
+				isHdr = true
+			}
+		}
+		if !isHdr || len(h.Instrs) == 0 {
+			continue
+		}
+		iff, ok := h.Instrs[len(h.Instrs)-1].(*ssa.If)
+		if !ok {
+			continue
+		}
+		body := loopBlocks(h)
+		// len(c) in the header condition
+		var chans []string
+		for v := range engine.BackSlice(iff.Cond, engine.SliceOpts{ThroughLoads: false, MaxNodes: 40}) {
+			c, isC := v.(*ssa.Call)
+			if !isC {
+				continue
+			}
+			if bi, isB := c.Call.Value.(*ssa.Builtin); !isB || bi.Name() != "len" {
+				continue
+			}
+			if _, isCh := c.Call.Args[0].Type().Underlying().(*types.Chan); !isCh {
+				continue
+			}
+			if c.Block() != h {
+				continue // evaluated once before the loop: a fixed bound is fine
+			}
+			chans = append(chans, renderVal(c.Call.Args[0], 0))
+		}
+		if len(chans) == 0 {
+			continue
+		}
+		for b := range body {
+			for _, ins := range b.Instrs {
+				var from ssa.Value
+				switch x := ins.(type) {
+				case *ssa.UnOp:
+					if x.Op == token.ARROW {
+						from = x.X
+					}
+				case *ssa.Select:
+					for _, st := range x.States {
+						if st.Dir == types.RecvOnly {
+							from = st.Chan
+						}
+					}
+				}
+				if from == nil {
+					continue
+				}
+				for _, c := range chans {
+					if renderVal(from, 0) == c {
+						out = append(out, ins)
+					}
+				}
+			}
+		}
+	}
+	return out
 }
